@@ -419,6 +419,84 @@ macro_rules! zip_plain {
     };
 }
 
+// exactly ONE operand type has drop glue: both owned operands must still be guarded (needs_drop::<T>() || needs_drop::<B>())
+// @gen macro=zip_mixed name=c08_zip_mixed props=C03,C04,C08 quick=dp,U3,3;pd,U3,3 thorough=dp,U1,1;pd,U1,1;dp,U5,5;pd,U5,5
+macro_rules! zip_mixed {
+    ($name:ident, dp, $N:ty, $n:expr) => {
+        #[kani::proof]
+        #[kani::unwind(12)]
+        fn $name() {
+            let a: GenericArray<D, $N> = arr_d::<$N, $n>(0);
+            let sb: [u32; $n] = kani::any();
+            let b: GenericArray<u32, $N> = GenericArray::from_array(sb);
+            reset_monitor();
+            let mut calls = 0usize;
+            let out: GenericArray<u32, $N> = a.zip(b, |x: D, y: u32| {
+                kani::assert(x.0 == calls && y == sb[calls], "C08.zip(droppable, plain): k-th call receives (a[k], b[k]), ascending");
+                kani::assert(n_consumers() >= 1 && consumer_pos(0) == calls + 1 && (n_consumers() < 2 || consumer_pos(1) == calls + 1),
+                    "C04.zip(droppable, plain) unwind@closure: the droppable operand is guarded by a consumer whose position excludes exactly the elements handed out");
+                kani::assert(all_live(calls, $n), "C04.zip(droppable, plain): unconsumed droppable inputs are live at the call");
+                calls += 1;
+                drop(x);
+                y
+            });
+            kani::assert(calls == $n && all_dead(0, $n) && unsafe { DROPS } == $n, "C03.zip(droppable, plain): every droppable element consumed exactly once");
+            kani::cover!(true, "end reachable");
+        }
+    };
+    ($name:ident, pd, $N:ty, $n:expr) => {
+        #[kani::proof]
+        #[kani::unwind(12)]
+        fn $name() {
+            let sa: [u32; $n] = kani::any();
+            let a: GenericArray<u32, $N> = GenericArray::from_array(sa);
+            let b: GenericArray<D, $N> = arr_d::<$N, $n>(0);
+            reset_monitor();
+            let mut calls = 0usize;
+            let out: GenericArray<u32, $N> = a.zip(b, |x: u32, y: D| {
+                kani::assert(y.0 == calls && x == sa[calls], "C08.zip(plain, droppable): k-th call receives (a[k], b[k]), ascending");
+                kani::assert(n_consumers() >= 1 && consumer_pos(0) == calls + 1 && (n_consumers() < 2 || consumer_pos(1) == calls + 1),
+                    "C04.zip(plain, droppable) unwind@closure: the droppable operand is guarded by a consumer whose position excludes exactly the elements handed out");
+                kani::assert(all_live(calls, $n), "C04.zip(plain, droppable): unconsumed droppable inputs are live at the call");
+                calls += 1;
+                drop(y);
+                x
+            });
+            kani::assert(calls == $n && all_dead(0, $n) && unsafe { DROPS } == $n, "C03.zip(plain, droppable): every droppable element consumed exactly once");
+            kani::cover!(true, "end reachable");
+        }
+    };
+}
+
+/// no drop glue, but an observable, non-trivial Clone: "no drop glue" does not mean "Copy"
+pub struct Cn(pub u32);
+pub static mut CN_CLONES: usize = 0;
+impl Clone for Cn {
+    fn clone(&self) -> Cn {
+        unsafe { CN_CLONES += 1 };
+        Cn(self.0 ^ 0x5a5a)
+    }
+}
+
+// @gen macro=clone_plain name=c08_clone_plain props=C08 quick=U0,0;U1,1;U4,4 thorough=U3,3;U7,7
+macro_rules! clone_plain {
+    ($name:ident, $N:ty, $n:expr) => {
+        #[kani::proof]
+        #[kani::unwind(12)]
+        fn $name() {
+            let sa: [u32; $n] = kani::any();
+            let a: GenericArray<Cn, $N> = GenericArray::from_array(sa.map(Cn));
+            let c = a.clone();
+            kani::assert(unsafe { CN_CLONES } == $n, "C08.clone(no drop glue): Clone::clone is still called exactly once per element");
+            let i: usize = kani::any();
+            if i < $n {
+                kani::assert(c[i].0 == sa[i] ^ 0x5a5a && a[i].0 == sa[i], "C08.clone(no drop glue): element i of the result is a[i].clone()");
+            }
+            kani::cover!(true, "end reachable");
+        }
+    };
+}
+
 // @gen macro=clone_h name=c08_clone props=C03,C04,C08 quick=U0,0;U1,1;U4,4 thorough=U3,3;U7,7
 macro_rules! clone_h {
     ($name:ident, $N:ty, $n:expr) => {
